@@ -60,7 +60,7 @@ func compare(a interface{}, b interface{}) int {
 			return -1
 		}
 	case uint:
-		tvb := uint(b.(uint64))
+		tvb := b.(uint)
 		if ta > tvb {
 			return 1
 		}
